@@ -2,7 +2,8 @@
 
    Case layout (see harness/cmd/c14/main.go):
    1 ORDER : nodes: list of (id, kind (0 history, 2 datasource error), versions: list of list of (isrel, ref))
-             requests: list of id;  mode(0 run to the end, 1 Close after k Next, 2 cancel after k Next) k
+             requests: list of id;  mode(0 run to the end, 1 Close after k Next, 2 cancel after k Next,
+             3 Close while the datasource is inside the lookup of relation k and honours only its context) k
            | emitted: list of id;  err (mode 0: 0 nil, 1 cancelled, 2 datasource error; else 0 nil, 1 non-nil)
              terminated (Next false afterwards, goroutine gone within the deadline)
    codes: 1 = model <> implementation, 2 = property oracle fails on the observation,
@@ -32,6 +33,9 @@ Definition check_order : P (list Z) :=
   let ids := map (fun n => fst (fst n)) nodes in
   let n := S (List.length nodes) in
   let '(s, out) := order ds (n + 3) reqs in
+  (* mode 3: everything sent before the lookup of relation k = the run in which that lookup fails *)
+  let ds3 := fun id => if id =? Z.of_nat k then match ds id with HFound _ => HErr | h => h end else ds id in
+  let '(s3, out3) := order ds3 (n + 3) reqs in
   let has_err := existsb (fun nd => negb (snd (fst nd) =? 0)) nodes in
   let j1 :=
     match s with
@@ -39,6 +43,8 @@ Definition check_order : P (list Z) :=
     | _ =>
         term &&
         if mode =? 0 then list_eqb Z.eqb seq out && (err =? match s with SErr => 2 | _ => 0 end)
+        else if mode =? 3 then list_eqb Z.eqb seq out3 && negb (err =? 0)
+                               && match s3 with SFuel => false | _ => true end
         else list_eqb Z.eqb seq (firstn k out) && negb (err =? 0)
     end in
   let j2 :=
@@ -48,9 +54,13 @@ Definition check_order : P (list Z) :=
     && (if (mode =? 0) && (err =? 0)
         then forallb (fun r => negb (has_history ds r) || memZ r seq) reqs else true)
     && (if mode =? 0 then (err =? 0) || ((err =? 2) && has_err) else negb (err =? 0))
-    && (if acyclicb ds ids then children_firstb ds n [] seq else true) in
-  (* 3: the two executable readings of "acyclic" (rank / closure) agree on this graph *)
-  let j3 := Bool.eqb (acyclicb ds ids) (acyclic_closureb ds ids) in
+    && (if acyclicb ds ids then members_firstb ds [] seq else true) in
+  (* 3: the two executable readings of "acyclic" (rank / closure) and of "children first"
+     (members / descendants) agree on this graph (small graphs only: the closures are costly) *)
+  let j3 := if (List.length nodes <=? 14)%nat
+            then Bool.eqb (acyclicb ds ids) (acyclic_closureb ds ids)
+                 && (if acyclicb ds ids then Bool.eqb (members_firstb ds [] seq) (children_firstb ds n [] seq) else true)
+            else true in
   ret (code_if j1 1 ++ code_if j2 2 ++ code_if j3 3)%list.
 
 Definition check_case (t : toks) : list Z :=
